@@ -29,9 +29,6 @@ R.contract(MS + "SensitiveWordAnonymizer.__init__", trusted=True,
            modifies=["self"],
            ensures=["self.salt == salt", "seq(self.words) == seq(sensitive_words)",
                     "all(iff(w in self.reserved_src, w in reserved_words) for w in Str)"])
-R.contract(MS + "AsNumberAnonymizer.__init__", trusted=True,
-           types={"self": ObjT("AsNum"), "as_numbers": LS, "salt": STR}, modifies=["self"],
-           ensures=["self.salt == salt"])
 R.contract(MS + "generate_default_sensitive_item_regexes", trusted=True, types={}, returns=Opq("ReGroups"), pure=True,
            ensures=["True"])
 
@@ -62,7 +59,8 @@ R.contract(M + "FileAnonymizer.__init__",
            requires=["implies(preserve_suffix_v4 is not None, 0 <= preserve_suffix_v4 and preserve_suffix_v4 <= 32)",
                      "implies(preserve_suffix_v6 is not None, 0 <= preserve_suffix_v6 and preserve_suffix_v6 <= 128)",
                      "implies(preserve_prefixes is not None, all(ValidNet4(p) for p in preserve_prefixes))",
-                     "implies(preserve_networks is not None, all(ValidNet4(p) for p in preserve_networks))"],
+                     "implies(preserve_networks is not None, all(ValidNet4(p) for p in preserve_networks))",
+                     "implies(as_numbers is not None, all(IsNumeral(n) and int(n) <= 4294967295 for n in as_numbers))"],
            modifies=["self", "log"],
            nondet_ok="salt is None",
            ensures=[
@@ -88,7 +86,8 @@ R.contract(M + "FileAnonymizer.__init__",
                "w in self.reserved_words) for w in Str))",
                "implies(reserved_words is not None, all(w in self.reserved_words for w in reserved_words))",
                "(self.anonymizer_as_num is not None) == (as_numbers is not None)",
-               "implies(as_numbers is not None, self.anonymizer_as_num.salt == self.salt)",
+               "implies(as_numbers is not None, self.anonymizer_as_num.salt == self.salt and "
+               "AsOK(self.anonymizer_as_num) and seq(self.anonymizer_as_num.numbers) == seq(as_numbers))",
            ])
 
 
@@ -122,8 +121,6 @@ R.contract(MS + "replace_matching_item", trusted=True, record=True,
 R.contract(MS + "SensitiveWordAnonymizer.anonymize", trusted=True, record=True,
            types={"self": ObjT("WordAnon"), "line": STR}, returns=STR, modifies=["self.sens_word_replacements"],
            ensures=["True"])
-R.contract(MS + "anonymize_as_numbers", trusted=True, record=True,
-           types={"anonymizer": ObjT("AsNum"), "line": STR}, returns=STR, ensures=["True"])
 for _k in ("netconan.ip_anonymization:anonymize_ip_addr@v4", "netconan.ip_anonymization:anonymize_ip_addr@v6"):
     R.contracts[_k].record = True
 
@@ -212,10 +209,11 @@ SPEC_BUILTINS["PipelineOK"] = _sp_pipeline_ok
 
 WF4 = "implies(self.anonymizer4 is not None, WF(self.anonymizer4) and self.anonymizer4.length == 32)"
 WF6 = "implies(self.anonymizer6 is not None, WF(self.anonymizer6) and self.anonymizer6.length == 128)"
+ASOK = "implies(self.anonymizer_as_num is not None, AsOK(self.anonymizer_as_num))"
 
 R.contract(M + "FileAnonymizer.anonymize_io",
            types={"self": FA, "in_io": IN, "out_io": OUT}, returns=NONE,
-           requires=[WF4, WF6],
+           requires=[WF4, WF6, ASOK],
            modifies=["out_io.written", "self.pwd_lookup", "self.anonymizer4.cache", "self.anonymizer6.cache",
                      "self.anonymizer_sensitive_word.sens_word_replacements", "log"],
            # a file that cannot be read fails before anything is written or recorded (fault isolation, C16)
@@ -228,6 +226,6 @@ R.contract(M + "FileAnonymizer.anonymize_io",
                                   heap_modifies=["out_io.written", "self.pwd_lookup", "self.anonymizer4.cache",
                                                  "self.anonymizer6.cache",
                                                  "self.anonymizer_sensitive_word.sens_word_replacements"],
-                                  invariant=[WF4, WF6,
+                                  invariant=[WF4, WF6, ASOK,
                                              "len(seq(out_io.written)) == len(seq(old(out_io.written))) + _i0",
                                              "PipelineOK(self, 'line')"])})
